@@ -5,10 +5,15 @@ inductive Cmp where
   | lt | le | gt | ge | eq | ne | unknown
   deriving DecidableEq, Repr
 
-def Cmp.eval (c : Cmp) (a b : Int) : Bool :=
+def Cmp.eval (c : Cmp) (a b : Nat) : Bool :=
   match c with
-  | .lt => a < b | .le => a ≤ b | .gt => a > b | .ge => a ≥ b
+  | .lt => Nat.blt a b | .le => Nat.ble a b | .gt => Nat.blt b a | .ge => Nat.ble b a
   | .eq => a == b | .ne => a != b | .unknown => false
+
+theorem Cmp.eval_le (a b : Nat) : Cmp.eval .le a b = true ↔ a ≤ b := by simp [Cmp.eval]
+theorem Cmp.eval_lt (a b : Nat) : Cmp.eval .lt a b = true ↔ a < b := by simp [Cmp.eval, Nat.blt]; omega
+theorem Cmp.eval_ge (a b : Nat) : Cmp.eval .ge a b = true ↔ a ≥ b := by simp [Cmp.eval]
+theorem Cmp.eval_gt (a b : Nat) : Cmp.eval .gt a b = true ↔ a > b := by simp [Cmp.eval, Nat.blt]; omega
 
 /-- Lock mode taken by a method. -/
 inductive LockMode where
